@@ -18,6 +18,12 @@ type Op struct {
 	Commit bool   `json:"commit,omitempty"` // txn: commit (else rollback)
 	D      int64  `json:"d,omitempty"`      // sleep: virtual milliseconds
 	RO     bool   `json:"ro,omitempty"`     // txn: read-only
+	// txn only:
+	Scribble bool `json:"scribble,omitempty"` // caller overwrites its key/value buffers right after each tx.Put/Delete
+	Abandon  bool `json:"abandon,omitempty"`  // neither commit nor rollback
+	FailIO   int  `json:"fail_io,omitempty"`  // 1: the next file write fails, 2: the next fsync fails (armed before Commit)
+
+	PreCommit func() `json:"-"` // harness hook run right before Commit
 }
 
 func (o Op) String() string {
@@ -36,6 +42,15 @@ func (o Op) String() string {
 			end = " rollback"
 			if o.Commit {
 				end = " commit"
+			}
+			if o.Abandon {
+				end = " abandon"
+			}
+			if o.Scribble {
+				end += "+scribble"
+			}
+			if o.FailIO > 0 {
+				end += fmt.Sprintf("+failio%d", o.FailIO)
 			}
 		}
 		return fmt.Sprintf("%s{%s}%s", o.K, strings.Join(subs, " "), end)
